@@ -22,6 +22,12 @@ def one(call):
         if kind == "mdnf": return str(dnf(parse_marker(call[1])))
         if kind == "mvalidate":
             return str(parse_marker(call[1]).validate(call[2]))
+        if kind == "requirement":
+            from poetry.core.version.requirements import Requirement
+            r = Requirement(call[1]); return f"{r.name}|{sorted(r.extras)}|{r.constraint}|{r.marker}|{r.url}"
+        if kind == "dependency":
+            from poetry.core.packages.dependency import Dependency
+            return Dependency.create_from_pep_508(call[1]).to_pep_508()
     except RecursionError:
         return "E:RecursionError"
     except Exception as e:  # noqa
@@ -39,6 +45,13 @@ def main():
         n = int(sys.argv[4]); sys.setswitchinterval(1e-6)
         rng = random.Random(seed); rng.shuffle(order)
         parts = [order[k::n] for k in range(n)]
+        # first use of the lazily built grammars under contention: every thread starts with a call that needs a grammar
+        # (the PEP 508 requirement grammar on even threads, the marker grammar on odd ones) when its share has one
+        for k, part in enumerate(parts):
+            want = ("requirement", "dependency") if k % 2 == 0 else ("marker", "mintersect", "munion", "minvert", "mcnf", "mdnf", "mvalidate")
+            for j, i in enumerate(part):
+                if calls[i][0] in want:
+                    part.insert(0, part.pop(j)); break
         barrier = threading.Barrier(n)
         def work(part):
             barrier.wait()
